@@ -262,12 +262,32 @@ impl SystemCommandSizeLimiter {
     #[cfg(not(target_os = "linux"))]
     const MAX_TOTAL: usize = usize::MAX;
 
-    fn new_system(env: &HashMap<OsString, OsString>) -> Self {
+    fn new_system(env: &HashMap<OsString, OsString>, command: Option<&OsStr>) -> Self {
+        use std::os::unix::ffi::OsStrExt;
+
         // POSIX requires that we leave 2048 bytes of space so that the child processes
         // can have room to set their own environment variables.
         const ARG_HEADROOM: usize = 2048;
         let arg_max = unsafe { uucore::libc::sysconf(uucore::libc::_SC_ARG_MAX) } as usize;
         let arg_max = arg_max.min(Self::MAX_TOTAL);
+
+        // The kernel also copies the name of the file it executes into the same
+        // space, next to argv[0]: the command itself if it names a path, a
+        // directory of PATH joined with it otherwise.
+        let file_name_size = command.map_or(0, |command| {
+            let dir_size = if command.as_bytes().contains(&b'/') {
+                0
+            } else {
+                let path = env.get(OsStr::new("PATH"));
+                let path = path.map_or(&b"/usr/bin"[..], |path| path.as_bytes());
+                path.split(|&b| b == b':')
+                    .map(<[u8]>::len)
+                    .max()
+                    .unwrap_or(0)
+                    + 1
+            };
+            dir_size + count_osstr_chars_for_exec(command)
+        });
 
         let env_size: usize = env
             .iter()
@@ -280,7 +300,7 @@ impl SystemCommandSizeLimiter {
 
         Self {
             current_size: 0,
-            max_size: arg_max.saturating_sub(ARG_HEADROOM + env_size),
+            max_size: arg_max.saturating_sub(ARG_HEADROOM + env_size + file_name_size),
         }
     }
 }
@@ -1209,7 +1229,7 @@ fn do_xargs(args: &[&str]) -> Result<CommandResult, XargsError> {
         }
         _ => ExecAction::Echo,
     };
-    let env = std::env::vars_os().collect();
+    let env: HashMap<OsString, OsString> = std::env::vars_os().collect();
 
     let mut limiters = LimiterCollection::new();
     if let Some(max_args) = max_args {
@@ -1222,7 +1242,13 @@ fn do_xargs(args: &[&str]) -> Result<CommandResult, XargsError> {
         limiters.add(MaxCharsCommandSizeLimiter::new(max_chars));
     }
     #[cfg(unix)]
-    limiters.add(SystemCommandSizeLimiter::new_system(&env));
+    limiters.add(SystemCommandSizeLimiter::new_system(
+        &env,
+        match &action {
+            ExecAction::Command(args) => Some(&args[0]),
+            ExecAction::Echo => None,
+        },
+    ));
     #[cfg(windows)]
     limiters.add(MaxCharsCommandSizeLimiter::new_system(&env));
 
